@@ -220,10 +220,16 @@ static int mode_pbt(int n, int maxsize) {
 	auto bnd = gen::element<uint8_t>(0x00, 0x01, 0x02, 0x7f, 0x80, 0xfe, 0xff, 0x03, 0x04, 0x08, 0x10, 0x20, 0x40);
 	auto byteGen = gen::weightedOneOf<uint8_t>({ {5, uni}, {2, bnd} });
 	auto tapeGen = gen::container<std::vector<uint8_t>>(byteGen);
+	// rapidcheck has no bound on shrinking; under ASan its own bookkeeping makes long tapes take many minutes.  After the first
+	// failure at most `shrinkBudget` further executions are spent on shrinking (a deterministic count, not a clock): later
+	// candidates are reported as passing, so rapidcheck stops at the smallest failing tape found so far (already saved).
+	static bool failedOnce = false; static unsigned shrinkExecs = 0; const unsigned shrinkBudget = 3000;
 	bool ok = rc::check(std::string("property ") + PROP_ID, [&]() {
 		auto tape = *tapeGen;
+		if (failedOnce && ++shrinkExecs > shrinkBudget) return;
 		std::string msg;
 		if (run_one(tape.data(), tape.size(), &msg)) {
+			failedOnce = true;
 			save_failure("violation", msg);   // last failing execution == the shrunk one
 			g_violation_saved = true;
 			RC_FAIL(msg);
